@@ -14,6 +14,8 @@ def dispatch (c : Case) : String :=
   | "fvs" => handleFvs c
   | "exact" => handleExact c
   | "knob" => handleKnob c
+  | "spanner" => handleSpanner c
+  | "approx" => handleApprox c
   | k => s!"diff {c.id} unknown-kind {k}"
 
 partial def readAll (h : IO.FS.Stream) (acc : Array String) : IO (Array String) := do
